@@ -8,7 +8,7 @@
    correspondence check evaluates on the IMPLEMENTATION's observation. *)
 From Coq Require Import Floats.
 From Boltons Require Import Lib.Prelude Lib.C15_Float Spec.C15_Spec Model.C15_Model
-  Proofs.C15_Proofs Proofs.C15_ZInstance Proofs.C15_Prim Check.C15_Check Proofs.C15_Tie.
+  Proofs.C15_Proofs Proofs.C15_ZInstance Proofs.C15_Prim Proofs.C15_Stall Check.C15_Check Proofs.C15_Tie.
 
 (* ---- main theorem: the model refines the Spec --------------------------------- *)
 (* For all parameters (valid or not), both entry points, all counts, all jitter
@@ -262,6 +262,56 @@ Theorem C15_binary64_default_count_jitter :
 Proof. exact binary64_default_count_jitter. Qed.
 Print Assumptions C15_binary64_default_count_jitter.
 
+(* ---- the open finding's guard, exact (binary64) -----------------------------------------------------
+   Growth persists: once x < x*f (x > 0 finite, f > 1), every larger finite y has y < y*f
+   (below 2^-1022 all values share the ulp 2^-1074 and y(f-1) > x(f-1) >= ulp/2; above, the normal
+   lemma applies). *)
+Theorem C15_binary64_growth_persists :
+  forall x y f, PrimFloat.is_finite x = true -> PrimFloat.is_finite y = true ->
+    PrimFloat.ltb PrimFloat.zero x = true -> PrimFloat.ltb x y = true ->
+    PrimFloat.ltb PrimFloat.one f = true ->
+    PrimFloat.ltb x (PrimFloat.mul x f) = true -> PrimFloat.ltb y (PrimFloat.mul y f) = true.
+Proof. exact prim_grow_persist. Qed.
+Print Assumptions C15_binary64_growth_persists.
+
+(* hence the sequence stalls iff it stalls at start itself: 0 < start < stop and start*factor <= start *)
+Theorem C15_binary64_stalls_iff_stall_at_start :
+  forall start stop factor, valid prim_ops start stop factor = true ->
+    PrimFloat.ltb PrimFloat.one factor = true ->
+    forall n, stalls prim_ops stop factor start (S n) = stall_at_start start stop factor.
+Proof. exact stalls_iff_stall_at_start. Qed.
+Print Assumptions C15_binary64_stalls_iff_stall_at_start.
+
+Theorem C15_binary64_known_guard_exact :
+  forall p n,
+    spec_known prim_ops p (S n)
+    = negb (must_raise prim_ops p) && PrimFloat.ltb PrimFloat.one (p_factor p)
+      && (match p_count p with CNone => true | _ => false end)
+      && stall_at_start (p_start p) (p_stop p) (p_factor p).
+Proof. exact known_guard_exact. Qed.
+Print Assumptions C15_binary64_known_guard_exact.
+
+(* THE DEFAULT-COUNT CLAUSE, COMPLETE AND TIGHT (replaces the _partial theorems for binary64):
+   for all valid parameters with factor > 1 and any jitter in range, EITHER start*factor does not
+   exceed start (0 < start < stop; the open finding, a subnormal start) and backoff() raises
+   ValueError, OR for some fuel and number n of draws, for every list of n or more draws in [0,1],
+   backoff() returns a list within all value clauses whose un-jittered last value is stop. *)
+Theorem C15_binary64_default_count_complete :
+  forall start stop factor j take,
+    let p := mkP ApiList start stop CNone factor j take in
+    must_raise prim_ops p = false -> PrimFloat.ltb PrimFloat.one factor = true ->
+    (stall_at_start start stop factor = true /\
+     forall fuel draws, run prim_ops p (S fuel) draws = mkObs [] (ERaise ValueError))
+    \/
+    (stall_at_start start stop factor = false /\
+     exists fuel n, forall draws, draws_ok prim_ops draws -> (n <= length draws)%nat ->
+       let o := run prim_ops p fuel draws in
+       o_end o = EStop /\ values_ok prim_ops p (o_vals o) = true /\
+       last_is prim_ops stop (if jitter_off prim_ops j then o_vals o
+                              else ideal prim_ops stop factor start (length (o_vals o))) = true).
+Proof. exact binary64_default_count_complete. Qed.
+Print Assumptions C15_binary64_default_count_complete.
+
 (* ---- soundness of the correspondence verdict ----------------------------------------------------
    For every case the check evaluates: if its [agree] bit is true (the implementation's observation
    is the model's run for the recorded draws in order, or for some assignment of recorded draws to
@@ -349,3 +399,10 @@ Example C15_ex_spec_rejects :
   spec_holds prim_ops (mkP ApiList 0 0.5 (CNum 3) 2 0 0%nat) (mkObs [0; 1; 1] EStop) = false /\   (* 0 -> min(1,stop) *)
   spec_holds prim_ops (mkP ApiList 1 10 (CNum 2) 2 1 0%nat) (mkObs [1; 2.5] EStop) = false.       (* jitter bound *)
 Proof. vm_compute. repeat split; reflexivity. Qed.
+
+(* both sides of the closed-form guard are inhabited: 3*2^-1074 stalls for factor 1.1 but not 1.25 *)
+Example C15_ex_stall_at_start :
+  stall_at_start 0x3p-1074 1 0x1.199999999999ap+0 = true /\
+  stall_at_start 0x3p-1074 1 1.25 = false /\ stall_at_start 0x1p-1074 1 1.25 = true /\
+  stall_at_start 0x1p-1074 1 1.5 = false.
+Proof. vm_compute. auto. Qed.
